@@ -160,6 +160,9 @@ def check(program: Program, run: Run) -> None:
                 if key not in seen_p:
                     seen_p.add(key)
                     yield kw
+                    # the same duration with every other component passed explicitly as 0 (an explicit zero is not a component)
+                    if len(c_) <= 2 or run.tier == "thorough":
+                        yield {**{u: 0 for u in units}, **kw}
     npat = 0
     bad_aspects = {}
     for kw in patterns():
